@@ -57,7 +57,9 @@ THEOREMS = {
     "inner_prod": "C15_inner_prod_vec, C15_inner_prod_scalar, C15_inner_prod_is_star_dot, C15_rejects_inner_prod",
     "outer_prod": "C15_outer_prod, C15_outer_prod_is_vecMulVec, C15_rejects_outer_prod",
     "einsum": "C15_einsum, C15_einsum_complex, C15_einsum_real_part, C15_einsum_imag_part, C15_einsum_flags, C15_einsum_reads_valid, "
-              "C15_allIdx_spec, C15_sumLabels_spec, C15_einsum_ib_ibg, C15_rejects_einsum",
+              "C15_allIdx_spec, C15_sumLabels_spec, C15_einsum_ib_ibg, C15_rejects_einsum, C15_einsum_string, "
+              "C15_einsum_explicit_equation, C15_einsum_implicit_output, C15_einsum_ellipsis_spec, C15_einsum_ellipsis_alignment, "
+              "C15_einsum_implicit_matmul, C15_einsum_ellipsis_batched",
     "conjugate": "C15_conjugate_low_rank, C15_conjugate_transpose, C15_conjugate_is_conjTranspose",
     "conj": "C15_conj",
     "kronecker_prod": "C15_kronecker_prod, C15_kronecker_is_kronecker, C15_rejects_kronecker_prod",
@@ -1629,7 +1631,9 @@ def decorate(ctx, case):
             continue
         if alias and alias["with"] == role and alias["how"] == "window":
             continue
-        l = rand_layout(rng, t["shape"], allow_expand=not (alias and alias["with"] == role))
+        # (an expanded layout copies entries along the expanded axes: not for the EXTREME cases, whose operands are paired
+        # entry by entry so that every quotient is representable)
+        l = rand_layout(rng, t["shape"], allow_expand=not (alias and alias["with"] == role) and case.get("regime") not in EXTREME)
         if l:
             if case.get("same") and role == "x":
                 pass
